@@ -501,3 +501,30 @@ def run (c : Cfg) : State → List Event → Option State
     | none => none
 
 end Compio.KeyLife
+
+/-! ### `compio_runtime::CancelToken` (compio-runtime/src/cancel.rs) as sequences of driver events -/
+
+namespace Compio.KeyLife
+
+/-- `Inner { tokens: HashSet<Cancel>, is_cancelled }`; the set is kept as a duplicate-free list (any order) -/
+structure Token where
+  regs : List Nat
+  fired : Bool
+  deriving Repr
+
+def Token.new : Token := ⟨[], false⟩
+
+/-- `CancelToken::register(&key)`: on a fired token the key is cancelled at once through a clone
+(`driver.cancel(key.clone())`); otherwise a weak `Cancel` is made and inserted (a duplicate is dropped) -/
+def Token.register (t : Token) (id : Nat) : Token × List Event :=
+  if t.fired then (t, [.cloneCancel id])
+  else if id ∈ t.regs then (t, [.tokenRegister id, .tokenDrop id])
+  else ({ t with regs := t.regs ++ [id] }, [.tokenRegister id])
+
+/-- `CancelToken::cancel()`: first call takes the set and passes every token to `Proactor::cancel_token`
+(which consumes it); later calls do nothing -/
+def Token.cancel (t : Token) : Token × List Event :=
+  if t.fired then (t, [])
+  else (⟨[], true⟩, (t.regs.map fun id => [Event.tokenCancel id, Event.tokenDrop id]).flatten)
+
+end Compio.KeyLife
